@@ -354,7 +354,6 @@ func (w *regWorld) onArrive(e *rm.Entry) {
 	p := min(w.pass, len(w.c.Passes)-1)
 	i := w.perPass[p]
 	w.perPass[p]++
-	w.lastEOF = false
 	w.hostsUsed[e.Host] = true
 	g := Get{Kind: "ok"}
 	if i < len(w.c.Passes[p].Gets) {
@@ -551,6 +550,7 @@ type shapedBody struct {
 	closed   bool
 	stallAt  int // >= 0: after that many bytes the body blocks until the context ends (the harness ends it)
 	sent     int
+	started  bool
 }
 
 func (b *shapedBody) fillBuf() {
@@ -577,6 +577,11 @@ func (b *shapedBody) zero() (int, error) {
 func (b *shapedBody) Read(p []byte) (int, error) {
 	if b.closed {
 		return 0, errors.New("harness: read on closed response body")
+	}
+	if !b.started {
+		// the client reads a new body: the stream continues
+		b.started = true
+		b.w.lastEOF = false
 	}
 	if b.stallAt >= 0 && b.sent >= b.stallAt {
 		// stalled connection: nothing more arrives; the caller's context ends
@@ -829,10 +834,14 @@ type ocidirWorld struct {
 
 func newOcidirWorld(c *Case, content []byte, dig string) *ocidirWorld {
 	w := &ocidirWorld{c: c, content: content, dig: dig}
+	detached := false // after a rename the open descriptor reads the old inode; later writes go to the new file
 	for i, p := range c.Passes {
 		s := p.Corr.apply(content)
 		w.streams = append(w.streams, s)
-		if i > 0 && (p.Replace == "rename" || p.Replace == "keep") {
+		if i > 0 && p.Replace == "rename" {
+			detached = true
+		}
+		if i > 0 && (detached || p.Replace == "keep") {
 			// the open descriptor keeps reading the old inode / unchanged file
 			w.onDisk = append(w.onDisk, w.onDisk[i-1])
 		} else {
